@@ -1,5 +1,5 @@
 (* C08 - custom VCF variants are imported faithfully, whatever their VCF representation. *)
-From VV Require Import Model.Base Model.Pattern Model.Seq Model.Vcf Model.Targeton Proofs.VcfProofs.
+From VV Require Import Model.Base Model.Pattern Model.Seq Model.Vcf Model.Targeton Model.Import Proofs.VcfProofs Proofs.ImportProofs.
 
 (* however the record is anchored or padded (SNV, MNV, anchored insertion/deletion, anchored or unanchored
    deletion-insertion, non-minimal padding), the oligonucleotide built from the imported variant is the template
@@ -35,6 +35,37 @@ Example C08_examples :
   = ["GGGGGATTCGTGG"; "GGGGGAGTGG"; "GGGGGATTGTGG"; "GGGGGATGG"; "GGGGGGTTGTGG"]%string.
 Proof. vm_compute. reflexivity. Qed.
 
+(* which records appear: exactly the polymorphic records on the targeton's contig whose reported span (for insertions and
+   deletions: without the anchor base) lies inside the targeton, each in its documented reported form *)
+Theorem C08_import_exact : forall contig r recs out,
+  import_records contig r recs = Ok out ->
+  (forall x, In x recs -> 1 < r_pos x) ->
+  forall c, In c out <->
+    exists x alt, In x recs /\ r_contig x = contig /\ r_alt x = Some alt /\
+      from_record (r_pos x) (r_ref x) (Some alt) = Ok c /\
+      cu_var c = reported_spec (r_pos x) (r_ref x) alt /\
+      rs r <= v_pos (cu_var c) /\ custom_end c <= re r.
+Proof. exact import_exact. Qed.
+
+(* once per record, in file order *)
+Theorem C08_import_once_per_record : forall contig r recs out,
+  import_records contig r recs = Ok out ->
+  exists cs, parse_records contig recs = Ok cs /\ length cs = length (filter (on_contig contig) recs) /\
+             out = filter (keep_custom r) cs /\ (length out <= length recs)%nat.
+Proof. exact import_once_per_record. Qed.
+
+(* non-vacuity: targeton 8-20 on chr1; an insertion after 10 (in), a deletion of 8 anchored at 7 (in: only the anchor is outside),
+   a deletion of 7-8 anchored at 6 (out), a monomorphic record, a record of another contig, an SNV at 21 (out) *)
+Example C08_import_example :
+  import_records "chr1" (mkRange 8 20)
+    [mkRec "chr1" 10 (d "A") (Some (d "ATT")); mkRec "chr1" 7 (d "AC") (Some (d "A")); mkRec "chr1" 6 (d "ACC") (Some (d "A"));
+     mkRec "chr1" 12 (d "G") None; mkRec "chr2" 12 (d "G") (Some (d "T")); mkRec "chr1" 21 (d "G") (Some (d "T"))]
+  = Ok [mkCustom (mkVar 11 [] (d "TT")) (Some A) VIns Classified; mkCustom (mkVar 8 (d "C") []) (Some A) VDel Classified].
+Proof. vm_compute. reflexivity. Qed.
+
 Print Assumptions C08_normalise_preserves_effect.
 Print Assumptions C08_reported_form.
 Print Assumptions C08_in_const_iff.
+Print Assumptions C08_import_exact.
+Print Assumptions C08_import_once_per_record.
+Print Assumptions C08_import_example.
